@@ -145,22 +145,27 @@ def run(chk, scratch):
             chosen = []
             for s, ns in sorted(by_site.items()):
                 chosen.append(ns[0] if len(ns) == 1 else rng.choice(ns))
+                # the LAST mutation of a site that is passed several times (e.g. the last of a family of part files): killed after it
+                if len(ns) > 1 and ns[-1] not in chosen:
+                    chosen.append(ns[-1])
             rest = [e["n"] for e in points if e["n"] not in chosen]
             rng.shuffle(rest)
             budget = 26
             chosen += rest[:max(0, budget - len(chosen))]
-            if len(chosen) > 48:
+            if len(chosen) > 72:
                 # quick tier: a seed-dependent sample of the call sites (the thorough tier runs every crash point)
                 rng.shuffle(chosen)
-                chosen = sorted(chosen[:48])
+                chosen = sorted(chosen[:72])
         site_by_n = {e["n"]: site_of(e, clean) for e in points}
         per_conf[cname] = {"mutations": len(muts), "crash_points_in_scope": len(points), "executed": len(chosen),
                            "distinct_sites": len(by_site), "exhaustive": len(chosen) == len(points)}
 
         lockish = {e["n"] for e in points if "lock" in os.path.basename(e["path"]) or os.path.basename(e["path"]).endswith(("_collected", "_processed"))}
 
+        last_of_site = {ns[-1] for ns in by_site.values() if len(ns) > 1}
+
         def after(n):
-            return n in lockish or n % 3 == 2
+            return n in lockish or n in last_of_site or n % 3 == 2
 
         def one(n):
             out = os.path.join(d, "crash%d" % n)
